@@ -18,6 +18,8 @@ import (
 	"sort"
 	"strconv"
 	"strings"
+	"sync"
+	"sync/atomic"
 	"time"
 )
 
@@ -256,19 +258,62 @@ func Main(name string, eng Engine) error {
 // process so that what the worker found so far is not lost.
 var partial func(note string)
 
-func guarded(eng Engine, plan any, prop string, what string) Outcome {
+// progress is bumped by the scheduler at every decision (and may be bumped by
+// engines without a scheduler): the per-run watchdog looks at progress, not at
+// the age of the run, so that a loaded machine does not trip it.
+var progress atomic.Int64
+
+// Tick records that the current run is making progress.
+func Tick() { progress.Add(1) }
+
+type runInfo struct {
+	what  string
+	plan  any
+	start time.Time
+}
+
+var (
+	curRun   atomic.Pointer[runInfo]
+	dogStart sync.Once
+)
+
+// watchdog is one goroutine per worker process. A run is stuck when it has made
+// no scheduling decision for `limit` (code under test spinning without a
+// scheduling point, or blocked outside the scheduler), or when it is older
+// than 20x that (a safety net).
+func watchdog() {
 	limit := time.Duration(envInt("VERIF_RUN_WATCHDOG_S", 45)) * time.Second
-	tm := time.AfterFunc(limit, func() {
+	var seen *runInfo
+	var last int64
+	var lastAt time.Time
+	for now := range time.Tick(time.Second) {
+		ri := curRun.Load()
+		if ri == nil {
+			seen = nil
+			continue
+		}
+		if p := progress.Load(); ri != seen || p != last {
+			seen, last, lastAt = ri, p, now
+		}
+		if now.Sub(lastAt) < limit && now.Sub(ri.start) < 20*limit {
+			continue
+		}
 		buf := make([]byte, 1<<20)
 		n := runtime.Stack(buf, true)
-		pj, _ := json.Marshal(plan)
-		fmt.Fprintf(os.Stderr, "WATCHDOG: run %s exceeded %v\nplan: %s\n%s\n", what, limit, pj, buf[:n])
+		pj, _ := json.Marshal(ri.plan)
+		note := fmt.Sprintf("WATCHDOG: run %s made no progress for %v (age %v)", ri.what, now.Sub(lastAt).Round(time.Second), now.Sub(ri.start).Round(time.Second))
+		fmt.Fprintf(os.Stderr, "%s\nplan: %s\n%s\n", note, pj, buf[:n])
 		if partial != nil {
-			partial(fmt.Sprintf("WATCHDOG: run %s exceeded %v of wall time", what, limit))
+			partial(note)
 		}
 		os.Exit(3)
-	})
-	defer tm.Stop()
+	}
+}
+
+func guarded(eng Engine, plan any, prop string, what string) Outcome {
+	dogStart.Do(func() { go watchdog() })
+	curRun.Store(&runInfo{what: what, plan: plan, start: time.Now()})
+	defer curRun.Store(nil)
 	return eng.Execute(plan, prop)
 }
 
